@@ -184,6 +184,20 @@ def run_unit(name, repo=None, seed=None, rlimit=60, extra_tag="", canary=False, 
                     fail["labels"] = m["labels"]
                     fail["clause"] = m.get("clause")
                     fail["callee"] = m.get("fn")
+                elif m and m.get("shim") and any(("vmc_req" in (t.get("text") or "")) or ("vm_req" in (t.get("text") or "")) for t in (sec[0].get("text") or [])) \
+                        and "visit_mut" in fail.get("site_text", "") and "(self)" in fail.get("site_text", "").replace(" ", ""):
+                    # precondition of an (assumed) traversal, reached with the visitor itself: the only clause of it that does
+                    # not follow from the function's own preconditions is "no live temporary when a visit starts at the root
+                    # context" - the obligation named *_root_without_live_temporaries of this function, if it has one
+                    own = [l for mm in meta if mm and mm.get("fn") == fail["fn"] and mm.get("kind") == "requires"
+                           for l in (mm.get("labels") or []) if l.endswith("root_without_live_temporaries")]
+                    if own:
+                        fail["labels"] = sorted(set(own))
+                        fail["clause"] = "children are visited at the ROOT context while temporaries of the expression are live (every guard returning to the root resets the temporary counter)"
+                        fail["callee"] = "traversal (assumed contract), precondition"
+                    else:
+                        fail["kind"] = "assertion"
+                        fail["callee"] = "lemma (proof step)"
                 elif m and (m.get("shim") or m.get("spec_text")) or (m is None):
                     # the failed precondition belongs to a lemma / proof function of the vocabulary: a failed proof
                     # step inside this function (everything after it was proved ASSUMING the lemma's conclusion)
